@@ -80,7 +80,7 @@ func C02(tier string) int {
 	if tier == "thorough" {
 		E = eThorough
 		depth1, depth2 = 12, 3
-		budget = 30 * time.Minute
+		budget = 10 * time.Minute
 	}
 	onViol := func(path []SOp, v bfs.Viol) {
 		run.Violate(v.Key, v.What, map[string]any{"check": "C02", "path": path, "path_text": pathStrings(path)})
